@@ -12,6 +12,11 @@ ENTRY = {
                 "the OFF-only START also with projectors on every other stream only): the run directory must hold one file per (stream, type) that wrote a record, named for the "
                 "stream's reported name, and the decoded LJH22 / LJH3 / OFF header (name, index, number, source, rows, columns, row, column, channel count, subframe fields, as far "
                 "as the format records them) and the one record in it must be those of that stream; "
+                "through the RPC layer: one SourceControl is asked (ConfigureLanceroSource / ConfigureTriangleSource / ConfigureSimPulseSource, Start, Stop) to run every ordered pair "
+                "(thorough: triple) of a menu of 9 sources (Lancero on two simulated cards with several FirstRow / ChanSepColumns, Triangle, SimPulse; stream counts 16, 8, 3, so restarts "
+                "with an equal and with a different count, within and across source types); after each Start, while the source runs, the last STATUS message (Running, Nchannels, ChanGroups), "
+                "the last CHANNELNAMES message and the groups stored in ~/.dastard/channels.json must describe the running source: all identity oracles on the active source, "
+                "Nchannels = number of streams, reported and stored groups cover exactly the channel numbers in use, names = the streams' names; "
                 "non-trivial = the configuration was accepted and has at least 2 streams",
         "assumptions": ["Lancero geometry (devnum, columns, rows per card) is set directly in family A and twice/lancero (this alone reaches one-row cards and cards with unequal row counts, which the real Sample rejects); "
                         "in lancero-sampled and twice/lancero-sampled it comes from the real Configure (rows, line period, NSAMP from a cringeGlobals file) and the real Sample on scripted lancero.Lanceroer cards "
@@ -21,6 +26,9 @@ ENTRY = {
                         "Abaco packets come from fake PacketProducers built with the real packets constructors; all groups measure the same sample rate",
                         "true geometry of a multi-card Lancero stream = (row, column) within its own card and that card's rows x columns; of an Abaco stream = row within its group, "
                         "group position as column, group size as rows, number of groups as columns",
+                        "'status messages' = the STATUS and CHANNELNAMES client updates SourceControl.Start sends (read from SourceControl.clientUpdates by a harness goroutine standing in for the "
+                        "client updater; heartbeats drained likewise) and the channels.json it stores under $HOME/.dastard (a private HOME per worker); the RPC family runs in real time on "
+                        "lancero.NoHardware cards (one active card: a multi-card source cannot run) and the free-running Triangle/SimPulse sources; Abaco and Roach need UDP sockets and are not started through SourceControl",
                         "groups 'cover exactly' = the union of the reported [Firstchan, Firstchan+Nchan) ranges equals the set of channel numbers in use and the ranges are disjoint",
                         "rejecting a collision-free configuration is not a violation (counted in the evidence); exact Lancero numbers are not prescribed, only collision freedom",
                         "subframe offsets/divisions are compared between file header and source tables only; their physical correctness is not part of C19 (deviations are counted)",
